@@ -1191,3 +1191,505 @@ Theorem C08_append_after_tear es k e' tl :
   LOk (last_wins ents)
       (needs_recompaction_of (N.of_nat (length (last_wins ents))) (N.of_nat (length ents))).
 Proof. intros. apply C08_append_after_tear_buf; try assumption. apply load_buf_size_ge. Qed.
+
+(* ---------------------------------------------------------------------------------------- *)
+(** ** The safe direction *)
+
+(* [live out hash]: the manifest has an output [out] whose current command hashes to [hash]
+   (for generator rules, which ignore the hash: [live out _] for that output).
+   The side condition: the entry read from the merged line, unless it is the next record itself
+   (cut at a record boundary), is not a live (output, command hash) pair. *)
+Definition no_collision (live : bytes -> N -> bool) (frag : bytes) (e' : entry) : Prop :=
+  forall g, In g (merged_line_entry frag e') -> g = e' \/ live (e_out g) (e_hash g) = false.
+
+Lemma latest_middle n a x b y :
+  latest n (a ++ [x] ++ b) = Some y -> y = x \/ latest n (a ++ b) = Some y.
+Proof.
+  unfold latest. rewrite !rev_app_distr. cbn [rev app]. rewrite !lookup_out_app. cbn [lookup_out].
+  destruct (lookup_out n (rev b)) as [z|]; [right; assumption|].
+  destruct (bytes_eqb (e_out x) n); [intros [= <-]; left; reflexivity|right; assumption].
+Qed.
+
+Theorem C08_safe_direction_partial_buf B live es k e' tl :
+  (15 <= B)%nat -> Forall wf_entry es -> Forall (fits B) es ->
+  Forall wf_entry (e' :: tl) -> Forall (fits B) tl ->
+  (length (torn_fragment k es) + length (render_entry e') <= B)%nat ->
+  (length log_header <= k)%nat ->
+  no_collision live (torn_fragment k es) e' ->
+  exists ents needs,
+    load_log_buf B (record_append (firstn k (log_header ++ concat (map render_entry es))) (e' :: tl))
+      = LOk ents needs /\
+    forall y, In y ents -> live (e_out y) (e_hash y) = true ->
+      (y = e' /\ merged_line_entry (torn_fragment k es) e' = [e']) \/
+      latest (e_out y) (complete_prefix k es ++ tl) = Some y.
+Proof.
+  intros HB Hw Hf Hw' Hftl Hm Hk Hnc.
+  rewrite (C08_append_after_tear_buf B es k e' tl HB Hw Hf Hw' Hftl Hm Hk).
+  eexists. eexists. split; [reflexivity|].
+  intros y Hy Hlive. apply In_last_wins_latest in Hy.
+  inversion Hw' as [|? ? Hwe' _]; subst. destruct (wf_entry_inv e' Hwe') as (_ & _ & H9 & _).
+  destruct (merged_parse (torn_fragment k es) e' H9) as (x & Hx & _).
+  rewrite Hx in Hy. apply latest_middle in Hy. destruct Hy as [->|Hy]; [|right; assumption].
+  destruct (Hnc x) as [->|Hdead]; [rewrite Hx; left; reflexivity| |congruence].
+  left. split; [reflexivity|assumption].
+Qed.
+
+Theorem C08_safe_direction_partial live es k e' tl :
+  Forall wf_entry es -> Forall (fits load_buf_size) es ->
+  Forall wf_entry (e' :: tl) -> Forall (fits load_buf_size) tl ->
+  (length (torn_fragment k es) + length (render_entry e') <= load_buf_size)%nat ->
+  (length log_header <= k)%nat ->
+  no_collision live (torn_fragment k es) e' ->
+  exists ents needs,
+    load_log (record_append (firstn k (log_header ++ concat (map render_entry es))) (e' :: tl))
+      = LOk ents needs /\
+    forall y, In y ents -> live (e_out y) (e_hash y) = true ->
+      (y = e' /\ merged_line_entry (torn_fragment k es) e' = [e']) \/
+      latest (e_out y) (complete_prefix k es ++ tl) = Some y.
+Proof. intros. apply C08_safe_direction_partial_buf; try assumption. apply load_buf_size_ge. Qed.
+
+(* The witness that [no_collision] cannot be dropped.  Outputs "gen0" (command hash 0x25) and
+   "gen"; the record of "gen" is torn right after the name (4 tabs short of ... 3 tabs in the
+   fragment); the next session appends a record with start time 0 and end time 25:
+       "7\t9\t200\tgen" ++ "0\t25\t300\tfoo\t1234abcd\n"
+   is read as output "gen0", mtime 200, hash 0x25 — the real hash of gen0's command, with an mtime
+   (200) newer than the one ever recorded for gen0 (100). *)
+Definition wit_gen0 : entry :=
+  {| e_out := [103; 101; 110; 48]; e_start := 0; e_end := 5; e_mtime := 100; e_hash := 37 |}.
+Definition wit_gen : entry :=
+  {| e_out := [103; 101; 110]; e_start := 7; e_end := 9; e_mtime := 200; e_hash := 703506 |}.
+Definition wit_foo : entry :=
+  {| e_out := [102; 111; 111]; e_start := 0; e_end := 25; e_mtime := 300; e_hash := 305441741 |}.
+Definition wit_live (out : bytes) (h : N) : bool :=
+  (bytes_eqb out [103; 101; 110; 48] && (h =? 37)) ||
+  (bytes_eqb out [103; 101; 110] && (h =? 703506)) ||
+  (bytes_eqb out [102; 111; 111] && (h =? 305441741)).
+Definition wit_k : nat := 42.     (* 15 (header) + 16 (gen0 record) + 11 ("7\t9\t200\tgen") *)
+Definition wit_bad : entry :=
+  {| e_out := [103; 101; 110; 48]; e_start := 7; e_end := 9; e_mtime := 200; e_hash := 37 |}.
+
+Theorem C08_safe_direction_refuted :
+  exists live es k e' tl,
+    Forall wf_entry es /\ Forall wf_entry (e' :: tl) /\ (length log_header <= k)%nat /\
+    exists ents needs y,
+      load_log (record_append (firstn k (log_header ++ concat (map render_entry es))) (e' :: tl))
+        = LOk ents needs /\
+      In y ents /\ live (e_out y) (e_hash y) = true /\
+      ~ In y (es ++ e' :: tl) /\
+      latest (e_out y) (complete_prefix k es ++ tl) <> Some y /\
+      (exists g, latest (e_out y) (es ++ e' :: tl) = Some g /\ e_hash g = e_hash y /\
+                 (e_mtime g < e_mtime y)%Z).
+Proof.
+  exists wit_live, [wit_gen0; wit_gen], wit_k, wit_foo, [].
+  split; [repeat constructor|]. split; [repeat constructor|]. split; [vm_compute; lia|].
+  exists [wit_bad], false, wit_bad.
+  split; [vm_compute; reflexivity|]. split; [left; reflexivity|]. split; [reflexivity|].
+  split; [|split].
+  - cbn [app In]. intros [H|[H|[H|[]]]]; discriminate H.
+  - vm_compute. discriminate.
+  - exists wit_gen0. split; [vm_compute; reflexivity|]. split; [reflexivity|]. vm_compute. reflexivity.
+Qed.
+
+(* ---------------------------------------------------------------------------------------- *)
+(** ** Sessions, recompaction, restat, versions *)
+
+Lemma fold_record_append_nonempty ss : forall (f : bytes),
+  f <> [] -> fold_left record_append ss f = f ++ concat (map render_entry (concat ss)).
+Proof.
+  induction ss as [|s ss IH]; intros f Hf; [cbn; symmetry; apply app_nil_r|].
+  cbn [fold_left concat]. rewrite IH.
+  - rewrite record_append_nonempty by assumption. rewrite map_app, concat_app, app_assoc. reflexivity.
+  - rewrite record_append_nonempty by assumption. destruct f; [congruence|discriminate].
+Qed.
+
+Lemma loaded_nil : loaded [] = LOk [] false.
+Proof. reflexivity. Qed.
+
+(* any number of ninja invocations appending to the same log (first one creates it) *)
+Theorem C08_sessions_buf B (sessions : list (list entry)) :
+  (15 <= B)%nat -> Forall wf_entry (concat sessions) -> Forall (fits B) (concat sessions) ->
+  load_log_buf B (fold_left record_append sessions []) = loaded (concat sessions).
+Proof.
+  intros HB Hw Hf. destruct sessions as [|s ss].
+  - cbn [fold_left concat]. rewrite load_small; [reflexivity|lia|reflexivity|cbn; lia].
+  - cbn [fold_left]. unfold record_append at 2. cbn [app].
+    rewrite fold_record_append_nonempty by (rewrite log_header_eq; discriminate).
+    rewrite <- app_assoc, <- concat_app, <- map_app.
+    apply C08_roundtrip_buf; assumption.
+Qed.
+
+Theorem C08_sessions (sessions : list (list entry)) :
+  Forall wf_entry (concat sessions) -> Forall (fits load_buf_size) (concat sessions) ->
+  load_log (fold_left record_append sessions []) =
+  LOk (last_wins (concat sessions))
+      (needs_recompaction_of (N.of_nat (length (last_wins (concat sessions))))
+                             (N.of_nat (length (concat sessions)))).
+Proof. apply C08_sessions_buf, load_buf_size_ge. Qed.
+
+Lemma needs_same n : needs_recompaction_of n n = false.
+Proof. unfold needs_recompaction_of. lia. Qed.
+
+Lemma loaded_nodup l : nodup_out l -> loaded l = LOk l false.
+Proof.
+  intros H. unfold loaded, needs_of. rewrite last_wins_nodup by assumption.
+  rewrite needs_same. reflexivity.
+Qed.
+
+Lemma Forall_filter {A} (P : A -> Prop) f l : Forall P l -> Forall P (filter f l).
+Proof.
+  rewrite !Forall_forall. intros H x Hx. apply filter_In in Hx. apply H. tauto.
+Qed.
+
+(* a recompacted log loads as exactly the live entries and does not ask for recompaction again *)
+Theorem C08_recompact_buf B live entries :
+  (15 <= B)%nat -> Forall wf_entry entries -> Forall (fits B) entries -> nodup_out entries ->
+  load_log_buf B (recompact live entries) = LOk (filter (fun e => live (e_out e)) entries) false.
+Proof.
+  intros HB Hw Hf Hnd. unfold recompact.
+  rewrite C08_roundtrip_buf; [|assumption|apply Forall_filter; assumption|apply Forall_filter; assumption].
+  apply loaded_nodup, nodup_filter, Hnd.
+Qed.
+
+Theorem C08_recompact live entries :
+  Forall wf_entry entries -> Forall (fits load_buf_size) entries -> nodup_out entries ->
+  load_log (recompact live entries) = LOk (filter (fun e => live (e_out e)) entries) false.
+Proof. apply C08_recompact_buf, load_buf_size_ge. Qed.
+
+(* restat changes nothing but mtimes *)
+Theorem C08_restat_only_mtime pick entries :
+  map e_out (restat_log pick entries) = map e_out entries /\
+  map e_start (restat_log pick entries) = map e_start entries /\
+  map e_end (restat_log pick entries) = map e_end entries /\
+  map e_hash (restat_log pick entries) = map e_hash entries /\
+  map e_mtime (restat_log pick entries) =
+  map (fun e => match pick (e_out e) with Some m => m | None => e_mtime e end) entries.
+Proof.
+  unfold restat_log. rewrite !map_map.
+  repeat split; apply map_ext; intros e; unfold restat_entry; destruct (pick (e_out e)); reflexivity.
+Qed.
+
+Lemma restat_entry_wf pick e :
+  wf_entry e -> (forall m, pick (e_out e) = Some m -> in_int64 m = true) ->
+  wf_entry (restat_entry pick e).
+Proof.
+  intros Hwf Hp. unfold restat_entry. destruct (pick (e_out e)) as [m|] eqn:Hm; [|assumption].
+  specialize (Hp m eq_refl). unfold wf_entry, wf_entryb in *. cbn [e_out e_start e_end e_mtime e_hash].
+  rewrite !andb_true_iff in *. tauto.
+Qed.
+
+(* the rewritten log loads as the restat'ed table (Stat results are >= 0 and fit int64_t) *)
+Theorem C08_restat_file_buf B pick entries :
+  (15 <= B)%nat -> Forall wf_entry entries -> nodup_out entries ->
+  (forall e m, In e entries -> pick (e_out e) = Some m -> in_int64 m = true) ->
+  Forall (fits B) (restat_log pick entries) ->
+  load_log_buf B (restat_file pick entries) = LOk (restat_log pick entries) false.
+Proof.
+  intros HB Hw Hnd Hp Hf. unfold restat_file.
+  rewrite C08_roundtrip_buf; [|assumption| |assumption].
+  - apply loaded_nodup. unfold nodup_out.
+    destruct (C08_restat_only_mtime pick entries) as [-> _]. exact Hnd.
+  - unfold restat_log. apply Forall_map. rewrite Forall_forall in *. intros e He.
+    apply restat_entry_wf; [apply Hw; assumption|]. intros m Hm. apply (Hp e m He Hm).
+Qed.
+
+Theorem C08_restat_file pick entries :
+  Forall wf_entry entries -> nodup_out entries ->
+  (forall e m, In e entries -> pick (e_out e) = Some m -> in_int64 m = true) ->
+  Forall (fits load_buf_size) (restat_log pick entries) ->
+  load_log (restat_file pick entries) = LOk (restat_log pick entries) false.
+Proof. apply C08_restat_file_buf, load_buf_size_ge. Qed.
+
+(* ---- other versions ---- *)
+
+Definition version_line (v : Z) : bytes :=
+  [35; 32; 110; 105; 110; 106; 97; 32; 108; 111; 103; 32; 118] ++ print_dec_Z v ++ [10].
+
+Lemma version_line_current : version_line current_version = log_header.
+Proof. reflexivity. Qed.
+
+Lemma starts_with_digit_print n rest : starts_with_digit (print_dec_N n ++ rest) = true.
+Proof.
+  destruct (print_dec_N_head n) as (c & r & -> & Hc). cbn [app starts_with_digit].
+  unfold digit_val. replace ((48 <=? c) && (c <=? 57)) with true by lia.
+  replace (c - 48 <? 10) with true by lia. reflexivity.
+Qed.
+
+Lemma scan_int_print z rest :
+  in_int32 z = true -> stops 10 rest -> scan_int (print_dec_Z z ++ rest) = Some z.
+Proof.
+  intros Hr Hs. pose proof (in_int32_64 z Hr) as Hr64. unfold scan_int, print_dec_Z.
+  destruct (Z.ltb_spec z 0) as [Hneg|Hpos].
+  - cbn [app skip_ws]. rewrite is_space_false by lia.
+    unfold split_sign. cbn [N.eqb Pos.eqb]. rewrite starts_with_digit_print.
+    unfold print_dec_N. rewrite parse_print; [|left; reflexivity|assumption].
+    rewrite N2Z.inj_abs_N. rewrite Z.abs_neq by lia. rewrite Z.opp_involutive.
+    rewrite clamp64_id, wrap32_id by assumption. reflexivity.
+  - destruct (print_dec_N_head (Z.to_N z)) as (c & r & Hcr & Hc).
+    rewrite Hcr. cbn [app skip_ws]. rewrite is_space_false by lia.
+    unfold split_sign.
+    destruct (N.eqb_spec c 45) as [?|_]; [lia|]. destruct (N.eqb_spec c 43) as [?|_]; [lia|].
+    change (c :: r ++ rest) with ((c :: r) ++ rest). rewrite <- Hcr.
+    rewrite starts_with_digit_print.
+    unfold print_dec_N. rewrite parse_print; [|left; reflexivity|assumption].
+    rewrite Z2N.id by lia. rewrite clamp64_id, wrap32_id by assumption. reflexivity.
+Qed.
+
+Lemma scan_version_line v rest :
+  in_int32 v = true -> scan_signature (version_line v ++ rest) = v.
+Proof.
+  intros Hv. unfold version_line. rewrite <- !app_assoc. cbn [app].
+  unfold scan_signature. cbn [lit lits skip_ws is_space N.eqb Pos.eqb N.leb N.compare Pos.compare
+                             Pos.compare_cont andb orb].
+  rewrite scan_int_print; [reflexivity|assumption|reflexivity].
+Qed.
+
+(* A log whose signature line carries any other version: Load closes it, unlinks it and returns
+   LOAD_NOT_FOUND with a message (a warning for the caller) — whatever follows the first line,
+   however long the lines are.  With kOldestSupportedVersion = kCurrentVersion = 7 there is no
+   "old but still supported" version that would be read and recompacted. *)
+Theorem C08_version_discard_buf B v (rest : bytes) :
+  in_int32 v = true -> v <> current_version -> (length (version_line v) <= B)%nat ->
+  load_log_buf B (version_line v ++ rest) = LDiscard (v <? oldest_supported_version)%Z true.
+Proof.
+  intros Hv Hne HB. unfold load_log_buf. rewrite load_loop_S.
+  assert (Hpos : (0 < B)%nat).
+  { unfold version_line in HB. rewrite app_length in HB. cbn [length] in HB. lia. }
+  rewrite (read_line_init B _ (version_line v ++ rest) Hpos).
+  2:{ split; [left|]; reflexivity. }
+  2:{ unfold version_line. cbn [app]. discriminate. }
+  cbn zeta. cbn [lr_cur lr_le]. change (0 =? 0)%Z with true. cbn [andb].
+  rewrite firstn_app, (firstn_all2 (version_line v)) by assumption.
+  rewrite scan_version_line by assumption.
+  unfold oldest_supported_version, current_version in *.
+  destruct (Z.ltb_spec v 7) as [?|?]; [reflexivity|].
+  destruct (Z.ltb_spec 7 v) as [?|?]; [reflexivity|lia].
+Qed.
+
+(* ---- bounds on the length of a rendered record ---- *)
+
+Lemma digits_le_length base d : 2 <= base -> forall f n,
+  n < base ^ N.of_nat d -> (1 <= d)%nat -> (length (digits_le base f n) <= d)%nat.
+Proof.
+  intros Hb. induction d as [|d IH]; intros f n Hn Hd; [lia|].
+  destruct f as [|f]; [cbn; lia|]. rewrite digits_le_S. cbn [length].
+  destruct (N.eqb_spec (n / base) 0) as [Hz|Hnz]; [cbn [length]; lia|].
+  rewrite Nat2N.inj_succ, N.pow_succ_r' in Hn.
+  assert (Hq : n / base < base ^ N.of_nat d) by (apply N.div_lt_upper_bound; lia).
+  destruct d as [|d].
+  - cbn [N.of_nat] in Hq. rewrite N.pow_0_r in Hq. clear - Hq Hnz. set (q := n / base) in *. clearbody q. lia.
+  - specialize (IH f (n / base) Hq ltac:(lia)). lia.
+Qed.
+
+Lemma print_N_base_length base d n :
+  2 <= base -> n < base ^ N.of_nat d -> (1 <= d)%nat -> (length (print_N_base base n) <= d)%nat.
+Proof.
+  intros Hb Hn Hd. unfold print_N_base. rewrite rev_length, map_length.
+  apply digits_le_length; assumption.
+Qed.
+
+Lemma print_dec_Z_length32 z : in_int32 z = true -> (length (print_dec_Z z) <= 11)%nat.
+Proof.
+  intros H. unfold in_int32 in H. unfold print_dec_Z.
+  destruct (Z.ltb_spec z 0) as [Hn|Hp]; cbn [length]; unfold print_dec_N.
+  - pose proof (print_N_base_length 10 10 (Z.abs_N z) ltac:(lia)) as Hl.
+    change (10 ^ N.of_nat 10) with 10000000000 in Hl. specialize (Hl ltac:(lia) ltac:(lia)). lia.
+  - pose proof (print_N_base_length 10 10 (Z.to_N z) ltac:(lia)) as Hl.
+    change (10 ^ N.of_nat 10) with 10000000000 in Hl. specialize (Hl ltac:(lia) ltac:(lia)). lia.
+Qed.
+
+Lemma print_dec_Z_length64 z : in_int64 z = true -> (length (print_dec_Z z) <= 20)%nat.
+Proof.
+  intros H. unfold in_int64 in H. unfold print_dec_Z.
+  destruct (Z.ltb_spec z 0) as [Hn|Hp]; cbn [length]; unfold print_dec_N.
+  - pose proof (print_N_base_length 10 19 (Z.abs_N z) ltac:(lia)) as Hl.
+    change (10 ^ N.of_nat 19) with 10000000000000000000 in Hl.
+    specialize (Hl ltac:(lia) ltac:(lia)). lia.
+  - pose proof (print_N_base_length 10 19 (Z.to_N z) ltac:(lia)) as Hl.
+    change (10 ^ N.of_nat 19) with 10000000000000000000 in Hl.
+    specialize (Hl ltac:(lia) ltac:(lia)). lia.
+Qed.
+
+Lemma print_hex_length h : h < 18446744073709551616 -> (length (print_hex_N h) <= 16)%nat.
+Proof.
+  intros H. unfold print_hex_N. apply print_N_base_length; [lia| |lia].
+  change (16 ^ N.of_nat 16) with 18446744073709551616. assumption.
+Qed.
+
+Lemma c_str_length s : (length (c_str s) <= length s)%nat.
+Proof.
+  induction s as [|c s IH]; [cbn; lia|]. cbn [c_str]. destruct (c =? 0); cbn [length]; lia.
+Qed.
+
+(* a record line is at most 63 bytes longer than its output name:
+   11 + 1 + 11 + 1 + 20 + 1 + name + 1 + 16 + 1 *)
+Theorem render_entry_length e :
+  wf_entry e -> (length (render_entry e) <= length (e_out e) + 63)%nat.
+Proof.
+  intros Hwf. destruct (wf_entry_inv e Hwf) as (_ & _ & _ & _ & Hs & He & Hm & Hh).
+  unfold render_entry, render_body. repeat (rewrite app_length || cbn [length]).
+  pose proof (print_dec_Z_length32 _ Hs). pose proof (print_dec_Z_length32 _ He).
+  pose proof (print_dec_Z_length64 _ Hm). pose proof (print_hex_length _ Hh).
+  pose proof (c_str_length (e_out e)). lia.
+Qed.
+
+Lemma fits_name_length B e : wf_entry e -> (length (e_out e) + 63 <= B)%nat -> fits B e.
+Proof. intros Hwf H. unfold fits. pose proof (render_entry_length e Hwf). lia. Qed.
+
+Lemma fits_names B es :
+  Forall wf_entry es -> Forall (fun e => (length (e_out e) + 63 <= B)%nat) es -> Forall (fits B) es.
+Proof.
+  intros Hw Hn. rewrite Forall_forall in *. intros e He. apply fits_name_length; auto.
+Qed.
+
+(* ---- Load terminates on every file (the fuel of the model is never exhausted) and the table
+        never holds two entries for one output ---- *)
+
+Definition lr_inv (st : lr_state) : Prop :=
+  lr_le st = None \/ lr_le st = find_byte 10 (lr_cur st).
+
+Definition lr_remaining (st : lr_state) : nat :=
+  match lr_le st with
+  | Some i => length (lr_cur st) - S i + length (lr_rest st)
+  | None => length (lr_rest st)
+  end.
+
+Definition lr_phi (st : lr_state) : nat :=
+  match lr_le st, lr_remaining st with
+  | None, O => 1
+  | _, r => r + 2
+  end.
+
+Lemma find_byte_lt b (s : bytes) i : find_byte b s = Some i -> (i < length s)%nat.
+Proof.
+  revert i. induction s as [|c s IH]; intros i H; [discriminate|]. cbn [find_byte] in H.
+  destruct (c =? b); [injection H as <-; cbn; lia|].
+  destruct (find_byte b s) as [j|]; [|discriminate]. injection H as <-.
+  specialize (IH j eq_refl). cbn [length]. lia.
+Qed.
+
+Lemma lr_phi_pos st : (1 <= lr_phi st)%nat.
+Proof. unfold lr_phi. destruct (lr_le st); [lia|]. destruct (lr_remaining st); lia. Qed.
+
+Lemma lr_phi_le st : (lr_phi st <= lr_remaining st + 2)%nat.
+Proof. unfold lr_phi. destruct (lr_le st); [lia|]. destruct (lr_remaining st); lia. Qed.
+
+Lemma read_line_phi B st st' :
+  (0 < B)%nat -> lr_inv st -> read_line B st = Some st' ->
+  lr_inv st' /\ (lr_phi st' < lr_phi st)%nat.
+Proof.
+  intros HB Hinv Hrd. unfold read_line in Hrd.
+  (* the shape shared by both branches once [cur] and [rest] after the first step are known *)
+  assert (Hcommon : forall (cur rest : bytes) (bound : nat),
+    (length cur + length rest <= bound)%nat ->
+    ((length cur + length rest < bound)%nat \/ cur = [] \/ (0 < length cur)%nat) ->
+    match find_byte 10 cur with
+    | Some i => Some {| lr_cur := cur; lr_le := Some i; lr_rest := rest |}
+    | None => Some {| lr_cur := cur ++ firstn (B - length cur) rest;
+                      lr_le := find_byte 10 (cur ++ firstn (B - length cur) rest);
+                      lr_rest := skipn (B - length cur) rest |}
+    end = Some st' ->
+    lr_inv st' /\
+    ((lr_remaining st' < bound)%nat \/
+     (lr_le st' = None /\ lr_remaining st' = 0%nat /\ cur = [] /\ rest = []))).
+  { intros cur rest bound Hb _ H.
+    destruct (find_byte 10 cur) as [i|] eqn:Hf.
+    - injection H as <-. split; [right; cbn; symmetry; assumption|].
+      left. unfold lr_remaining. cbn [lr_cur lr_le lr_rest]. apply find_byte_lt in Hf. lia.
+    - injection H as <-. split; [right; reflexivity|].
+      unfold lr_remaining. cbn [lr_cur lr_le lr_rest].
+      destruct (find_byte 10 (cur ++ firstn (B - length cur) rest)) as [j|] eqn:Hf'.
+      + left. apply find_byte_lt in Hf'. rewrite app_length, firstn_length in *.
+        rewrite skipn_length. lia.
+      + rewrite skipn_length.
+        destruct cur as [|c cur]; [|left; cbn [length] in *; lia].
+        destruct rest as [|c rest]; [right; repeat split; reflexivity|].
+        left. cbn [length] in *. lia. }
+  destruct (lr_cur st) as [|c0 cur0] eqn:Hcur.
+  - (* refill; the invariant forces line_end_ = NULL *)
+    assert (Hle : lr_le st = None).
+    { destruct Hinv as [H|H]; [assumption|]. rewrite Hcur in H. exact H. }
+    rewrite Hle in Hrd.
+    destruct (firstn B (lr_rest st)) as [|c chunk] eqn:Hch; [discriminate|].
+    assert (Hlen : (length (c :: chunk) + length (skipn B (lr_rest st)) = length (lr_rest st))%nat).
+    { rewrite <- Hch, <- app_length, firstn_skipn. reflexivity. }
+    destruct (Hcommon (c :: chunk) (skipn B (lr_rest st)) (length (lr_rest st)) ltac:(lia)
+                      ltac:(right; right; cbn; lia) Hrd) as [Hi [Hlt|(_ & _ & Hc & _)]];
+      [|discriminate].
+    split; [assumption|].
+    pose proof (lr_phi_le st'). unfold lr_phi at 2. unfold lr_remaining at 2. rewrite Hle.
+    destruct (length (lr_rest st)) eqn:Hr; [cbn [length] in Hlen; lia|]. lia.
+  - destruct (lr_le st) as [i|] eqn:Hle.
+    + (* advance *)
+      assert (Hi : (i < length (lr_cur st))%nat).
+      { destruct Hinv as [H|H]; [congruence|]. rewrite Hle in H. symmetry in H.
+        apply find_byte_lt in H. exact H. }
+      rewrite <- Hcur in Hrd.
+      assert (Hlen : (length (skipn (S i) (lr_cur st)) = length (lr_cur st) - S i)%nat)
+        by apply skipn_length.
+      destruct (Hcommon (skipn (S i) (lr_cur st)) (lr_rest st)
+                        (length (lr_cur st) - S i + length (lr_rest st))%nat ltac:(lia)
+                        ltac:(destruct (skipn (S i) (lr_cur st)); [right; left; reflexivity|
+                              right; right; cbn; lia]) Hrd)
+        as [Hi' [Hlt|(Hn & Hz & Hc & Hr)]].
+      * split; [assumption|]. pose proof (lr_phi_le st').
+        unfold lr_phi at 2. unfold lr_remaining at 2. rewrite Hle. lia.
+      * split; [assumption|]. unfold lr_phi, lr_remaining. rewrite Hn, Hle.
+        unfold lr_remaining in Hz. rewrite Hn in Hz. rewrite Hz. lia.
+    + (* refill *)
+      destruct (firstn B (lr_rest st)) as [|c chunk] eqn:Hch; [discriminate|].
+      assert (Hlen : (length (c :: chunk) + length (skipn B (lr_rest st)) = length (lr_rest st))%nat).
+      { rewrite <- Hch, <- app_length, firstn_skipn. reflexivity. }
+      destruct (Hcommon (c :: chunk) (skipn B (lr_rest st)) (length (lr_rest st)) ltac:(lia)
+                        ltac:(right; right; cbn; lia) Hrd) as [Hi [Hlt|(_ & _ & Hc & _)]];
+        [|discriminate].
+      split; [assumption|].
+      pose proof (lr_phi_le st'). unfold lr_phi at 2. unfold lr_remaining at 2. rewrite Hle.
+      destruct (length (lr_rest st)) eqn:Hr; [cbn [length] in Hlen; lia|]. lia.
+Qed.
+
+Lemma load_loop_total B : (0 < B)%nat -> forall fuel seen ver st acc,
+  lr_inv st -> (lr_phi st <= fuel)%nat -> nodup_out (la_entries acc) ->
+  match load_loop B fuel seen ver st acc with
+  | LFuel => False
+  | LOk ents _ => nodup_out ents
+  | LDiscard _ _ => True
+  end.
+Proof.
+  intros HB fuel. induction fuel as [|fuel IH]; intros seen ver st acc Hinv Hphi Hnd.
+  - pose proof (lr_phi_pos st). lia.
+  - rewrite load_loop_S. destruct (read_line B st) as [st'|] eqn:Hrd.
+    + destruct (read_line_phi B st st' HB Hinv Hrd) as [Hinv' Hlt]. cbn zeta.
+      destruct ((ver =? 0)%Z && _); [exact I|].
+      destruct ((ver =? 0)%Z && _); [exact I|].
+      destruct (lr_le st') as [i|].
+      * apply IH; [assumption|lia|].
+        unfold load_step. destruct (parse_line _) as [e|]; [|assumption].
+        cbn [la_entries]. apply nodup_upsert. assumption.
+      * apply IH; [assumption|lia|assumption].
+    + unfold load_finish. destruct seen; assumption.
+Qed.
+
+(* Load on ANY bytes, with any buffer size: the model's fuel suffices (so the result is what the
+   C++ loop computes), the result is LOAD_SUCCESS or the discard, and the table has one entry per
+   output. *)
+Theorem load_log_buf_total B (file : bytes) :
+  (0 < B)%nat ->
+  match load_log_buf B file with
+  | LFuel => False
+  | LOk ents _ => nodup_out ents
+  | LDiscard _ _ => True
+  end.
+Proof.
+  intros HB. unfold load_log_buf. apply load_loop_total; [assumption|left; reflexivity| |constructor].
+  unfold lr_phi, lr_remaining, lr_init. cbn [lr_le lr_rest]. destruct (length file); lia.
+Qed.
+
+Theorem C08_load_never_fails (file : bytes) :
+  load_log file <> LFuel /\ (forall ents b, load_log file = LOk ents b -> nodup_out ents).
+Proof.
+  pose proof (load_log_buf_total load_buf_size file ltac:(pose proof load_buf_size_ge; lia)) as H.
+  unfold load_log. destruct (load_log_buf load_buf_size file) as [o w|ents b|].
+  - split; [discriminate|intros ? ? [=]].
+  - split; [discriminate|]. intros ents' b' [= <- <-]. assumption.
+  - destruct H.
+Qed.
